@@ -54,7 +54,7 @@ def main():
                 "trusted_base": trusted, "assumptions_printed": assumptions, "theorems": names,
                 "evaluations": out.evaluations, "distinct_nontrivial": len(out.nontrivial), "rule": P.RULE,
                 "samples": out.samples[:8] or [{"note": "no case was run"}], "input_distribution": out.distribution, "streams": out.streams,
-                "disagreements": n_dis, "spec_failures": n_fail, "exhaustive": bool(out.exhaustive),
+                "disagreements": n_dis, "spec_failures": n_fail, "judged_by_spec": out.judged, "exhaustive": bool(out.exhaustive),
                 "build_errors": errors, "notes": out.notes, "requirement": P.REQUIREMENT}
     dis = [d for d in out.disagreements if d]
     if new_failing:
